@@ -6,8 +6,8 @@ loading, consolidation with the disk state incl. slot reuse and clearing) and an
 that adds and removes pack files the way git does (objects never disappear). TLC checks NoPanic (none of
 the code's `unreachable!` states), NeverWrong (a pack is only ever read through the index entry it
 belongs to) and FoundIfPresent (an object present throughout the lookup is found) for all interleavings
-of the instance; the self-test mutant BugUnreachable (a cleared slot is treated as impossible) violates
-NoPanic.
+of the instance. spec/odb/SlotMap.tla is the sequential model of the slot allocation (see run_slotmap); its self-tests
+(the seeded change Bug_NoGenBump, the allocation as it was found) must violate its properties.
  A: OdbCalls_Gen enumerates every sequence of whole lookups (contains/find by two handles of one store)
     and git maintenance steps (repack -a -d, a new pack arriving, multi-pack-index write, prune-packed);
     replayed on a real repository with the real git commands: every object present is found with
@@ -135,9 +135,9 @@ def run(ctx):
     env = {"VERIF_C12_TEMPLATE": tdir}
     # the design
     ctx.tlc_mc("odb", "OdbStore", consts={"MaxEnv": 1 if not ctx.thorough else 2}, workers=8, timeout=3000, coverage=False, xmx="12g")
-    if ctx.thorough:
-        ctx.tlc_mc("odb", "OdbStore", consts={"MaxEnv": 2, "MaxLookups": 2, "BugUnreachable": "TRUE"}, workers=8, timeout=3000,
-                   expect_violation="NoPanic", coverage=False, xmx="12g")
+    # (the self-test mutant BugUnreachable needed the "reused slot is cleared afterwards" path of the allocation as it was found; with the
+    #  repaired allocation a cleared slot is seen by an older snapshot only after three environment steps, 2.9e7 states without a
+    #  violation at MaxEnv=2 - the self-tests of the allocation are the two SlotMap runs in run_slotmap)
     # whole-lookup sequences
     cases = ctx.tlc_gen("odb", "OdbCalls_Gen", consts={"MaxSteps": 4 if not ctx.thorough else 5, "Wide": "FALSE"}, timeout=3000)
     cases.sort(key=lambda c: json.dumps(c, sort_keys=True))
